@@ -1096,7 +1096,13 @@ fn write_float_fract(mut num: f64, radix: usize, f: &mut Formatter<'_>) -> fmt::
 impl LowerHex for Number {
     fn fmt(&self, f: &mut Formatter<'_>) -> fmt::Result {
         match self {
-            Number::Fixnum(num) => fmt::LowerHex::fmt(num, f),
+            // sign and magnitude: the integer formatters print negative values as two's complement
+            Number::Fixnum(num) => {
+                if *num < 0 {
+                    write!(f, "-")?;
+                }
+                fmt::LowerHex::fmt(&num.unsigned_abs(), f)
+            }
             Number::Float(num) => {
                 if *num < 0_f64 {
                     write!(f, "-")?;
@@ -1105,7 +1111,17 @@ impl LowerHex for Number {
                 write_float_fract(*num, 16, f)
             }
             Number::BigInt(num) => fmt::LowerHex::fmt(num.as_ref(), f),
-            Number::Rational(num) => fmt::LowerHex::fmt(num, f),
+            Number::Rational(num) => {
+                if *num.numer() < 0 {
+                    write!(f, "-")?;
+                }
+                fmt::LowerHex::fmt(&num.numer().unsigned_abs(), f)?;
+                if *num.denom() != 1 {
+                    write!(f, "/")?;
+                    fmt::LowerHex::fmt(num.denom(), f)?;
+                }
+                Ok(())
+            }
         }
     }
 }
@@ -1113,7 +1129,13 @@ impl LowerHex for Number {
 impl Octal for Number {
     fn fmt(&self, f: &mut Formatter<'_>) -> fmt::Result {
         match self {
-            Number::Fixnum(num) => fmt::Octal::fmt(num, f),
+            // sign and magnitude: the integer formatters print negative values as two's complement
+            Number::Fixnum(num) => {
+                if *num < 0 {
+                    write!(f, "-")?;
+                }
+                fmt::Octal::fmt(&num.unsigned_abs(), f)
+            }
             Number::Float(num) => {
                 if *num < 0_f64 {
                     write!(f, "-")?;
@@ -1122,7 +1144,17 @@ impl Octal for Number {
                 write_float_fract(*num, 8, f)
             }
             Number::BigInt(num) => fmt::Octal::fmt(num.as_ref(), f),
-            Number::Rational(num) => fmt::Octal::fmt(num, f),
+            Number::Rational(num) => {
+                if *num.numer() < 0 {
+                    write!(f, "-")?;
+                }
+                fmt::Octal::fmt(&num.numer().unsigned_abs(), f)?;
+                if *num.denom() != 1 {
+                    write!(f, "/")?;
+                    fmt::Octal::fmt(num.denom(), f)?;
+                }
+                Ok(())
+            }
         }
     }
 }
@@ -1130,7 +1162,13 @@ impl Octal for Number {
 impl Binary for Number {
     fn fmt(&self, f: &mut Formatter<'_>) -> fmt::Result {
         match self {
-            Number::Fixnum(num) => fmt::Binary::fmt(num, f),
+            // sign and magnitude: the integer formatters print negative values as two's complement
+            Number::Fixnum(num) => {
+                if *num < 0 {
+                    write!(f, "-")?;
+                }
+                fmt::Binary::fmt(&num.unsigned_abs(), f)
+            }
             Number::Float(num) => {
                 if *num < 0_f64 {
                     write!(f, "-")?;
@@ -1139,7 +1177,17 @@ impl Binary for Number {
                 write_float_fract(*num, 2, f)
             }
             Number::BigInt(num) => fmt::Binary::fmt(num.as_ref(), f),
-            Number::Rational(num) => fmt::Binary::fmt(num, f),
+            Number::Rational(num) => {
+                if *num.numer() < 0 {
+                    write!(f, "-")?;
+                }
+                fmt::Binary::fmt(&num.numer().unsigned_abs(), f)?;
+                if *num.denom() != 1 {
+                    write!(f, "/")?;
+                    fmt::Binary::fmt(num.denom(), f)?;
+                }
+                Ok(())
+            }
         }
     }
 }
